@@ -63,6 +63,9 @@ Inductive rout :=
 | RTooMany (req : N) (n : N)             (* "too many chunks: n > MaxChunkCount" *)
 | RTooLarge (req : N) (len : N).         (* "message too large" *)
 
+(* a negotiated limit of zero means no limit:  max > 0 && n > max *)
+Definition over (max n : N) : bool := (0 <? max) && (max <? n).
+
 Definition ctable := tbl (list chunk).
 
 Definition cget (t : ctable) (k : N) : list chunk := match tfind t k with Some l => l | None => [] end.
@@ -74,13 +77,13 @@ Definition recv_step (max_cc max_ms : N) (t : ctable) (c : chunk) : ctable * opt
   else if ck_type c =? CT_C then
     let l := cget t req ++ [c] in
     let n := nlen l in
-    if max_cc <? (n mod 4294967296) then (tdel t req, Some (RTooMany req n))
+    if over max_cc (n mod 4294967296) then (tdel t req, Some (RTooMany req n))
     else (tset t req l, None)
   else
     let all := cget t req ++ [c] in
     let b := merge all in
     let n := blen b mod 4294967296 in
-    if max_ms <? n then (tdel t req, Some (RTooLarge req n))
+    if over max_ms n then (tdel t req, Some (RTooLarge req n))
     else (tdel t req, Some (RDeliver req b)).
 
 Fixpoint recv_all (max_cc max_ms : N) (t : ctable) (cs : list chunk) : ctable * list rout :=
@@ -105,13 +108,13 @@ Definition spec_step (max_cc max_ms : N) (a : atable) (c : chunk) : atable * opt
     (tdel a req, Some (match abort_decode (ck_data c) with Some code => RAbort req code | None => RAbortBad req end))
   else if ck_type c =? CT_C then
     let '(n, b) := aget a req in
-    if max_cc <? ((n + 1) mod 4294967296) then (tdel a req, Some (RTooMany req (n + 1)))
+    if over max_cc ((n + 1) mod 4294967296) then (tdel a req, Some (RTooMany req (n + 1)))
     else (tset a req (n + 1, b ++ ck_data c), None)
   else
     let '(n, b) := aget a req in
     let b' := b ++ ck_data c in
     let l := blen b' mod 4294967296 in
-    if max_ms <? l then (tdel a req, Some (RTooLarge req l))
+    if over max_ms l then (tdel a req, Some (RTooLarge req l))
     else (tdel a req, Some (RDeliver req b')).
 
 Fixpoint spec_all (max_cc max_ms : N) (a : atable) (cs : list chunk) : atable * list rout :=
@@ -184,8 +187,11 @@ Definition smsg_out (m : smsg) : rout :=
   | SAborted req _ _ code _ => RAbort req code
   end.
 
+(* within a limit (zero = unlimited); sizes are uint32 in the code *)
+Definition within (max n : N) : Prop := n < 4294967296 /\ (max = 0 \/ n <= max).
+
 Definition smsg_ok (max_cc max_ms : N) (m : smsg) : Prop :=
   match m with
-  | SMsg _ ps _ last => nlen ps <= max_cc /\ blen (concat (map snd ps) ++ last) <= max_ms
-  | SAborted _ ps _ code reason => nlen ps <= max_cc /\ code < 4294967296 /\ blen reason < 4294967295
+  | SMsg _ ps _ last => within max_cc (nlen ps) /\ within max_ms (blen (concat (map snd ps) ++ last))
+  | SAborted _ ps _ code reason => within max_cc (nlen ps) /\ code < 4294967296 /\ blen reason < 4294967295
   end.
